@@ -53,10 +53,13 @@ def run_property(prop, tier, seed, quiet=False):
             r = extra_rule(P)
             results.extend(r if isinstance(r, list) else [r])
     known = report.load_known()
-    new, hits = [], []
+    new, hits, undecided = [], [], []
     for r in results:
         for o in r.obs:
             if o.ok:
+                continue
+            if o.undecided:
+                undecided.append(o)
                 continue
             e = report.match_known(known, prop, o)
             if e is not None:
@@ -68,8 +71,9 @@ def run_property(prop, tier, seed, quiet=False):
         print(f"[{prop}] analysed {st['modules']} modules, {st['classes']} classes, {st['functions']} functions "
               f"(tree digest {st['digest']})")
         for r in results:
-            bad = sum(1 for o in r.obs if not o.ok)
-            print(f"[{prop}] rule {r.rule}: {len(r.obs)} instance(s), {bad} violated"
+            bad = sum(1 for o in r.obs if not o.ok and not o.undecided)
+            und = sum(1 for o in r.obs if o.undecided)
+            print(f"[{prop}] rule {r.rule}: {len(r.obs)} instance(s), {bad} violated" + (f", {und} undecided" if und else "")
                   + (f" (min {r.min_instances})" if r.min_instances else ""))
             for s in r.info:
                 print(f"[{prop}]    info: {s}")
@@ -84,7 +88,9 @@ def run_property(prop, tier, seed, quiet=False):
         if o.witness:
             print(f"     witness: {o.witness}")
         print(f"VIOLATION property={prop} replay={path}")
-    return 1 if new else 0
+    for o in undecided:
+        print(f"ANALYSIS-ERROR property={prop} rule {o.rule} cannot decide {o.file}:{o.line} in {o.function}: {o.msg or o.construct}")
+    return 1 if new else (2 if undecided else 0)
 
 
 def replay(path):
